@@ -2,6 +2,7 @@
 import TF.Drv.Proto
 import TF.Model.BField
 import TF.Gen.BFieldLoops
+import TF.Gen.FieldLoops
 import TF.Model.XField
 import TF.Model.XFieldInv
 import TF.Spec.Field
@@ -57,9 +58,15 @@ def bfe : Handler
       | some v => s!"ok:{v}"
       | none => "err"
   | "batchinv", [xs] => xs.natList?.map fun l =>
-      match BF.batchInversion l with
+      -- `FiniteField::batch_inversion` as regenerated from source over an abstract field (P10), at the base field's operations
+      let gok := Loops.ff_batch_inversion_ok BF.zero BF.one bfe_mul (fun x => x == BF.zero) (fun x => (BF.inverse x).getD 0)
+        (fun x => (BF.inverse x).isSome) 0 l
+      let g := Loops.ff_batch_inversion BF.zero BF.one bfe_mul (fun x => x == BF.zero) (fun x => (BF.inverse x).getD 0)
+        (fun x => (BF.inverse x).isSome) 0 l
+      both (if gok then "ok:" ++ fmtList g else "panic")
+      (match BF.batchInversion l with
       | some r => "ok:" ++ fmtList r
-      | none => "panic"
+      | none => "panic")
   | "sum", [xs] => xs.natList?.map fun l => okN (BF.sum l)
   | "pacc", [.nat m, .nat base, .nat tail] =>
       both (genReply (Loops.bfe_power_accumulator_ok 1 m [base] [tail])
